@@ -74,7 +74,14 @@ def run(ctx):
                 ctx.ob("U1", b.defp, "reply-task-uses-binding-sender", loc(t["sp"]), ok, "the reply task labels replies with the sender that created the binding" if ok else "reply task does not pass the binding's sender")
 
     # ---------------- U3 server association ---------------------------------------------------------------
-    assoc = [b for b in bodies if "UdpAssociateContext::relay" in prog.display(b.defp) and any(c.name == "UdpSocket::send_to" for (_, c, _) in b.calls())]
+    # role: the server's per-session association task = server code that forwards datagrams (send_to) and consults the replay filter
+    from .c11 import filter_roles
+    _ff, _fpaths, _wrappers = filter_roles(prog)
+
+    def is_filter(c):
+        return c.target in _fpaths or c.target in _wrappers
+    assoc = [b for b in bodies if b.defp.startswith("octo_squirrel_server") and any(is_filter(c) for (_, c, _) in b.calls())
+             and any(c.name == "UdpSocket::send_to" for (_, c, _) in b.calls())]
     ctx.floor("U3", "server association task", 1, len(assoc))
     for b in assoc:
         # reply tuple sent on the inbound channel: (content, peer_addr, self.client_addr, session)
@@ -97,7 +104,7 @@ def run(ctx):
                 ctx.ob("U3", b.defp, "reply-to-recorded-client", loc(t["sp"]), ok_addr, "replies are addressed to the client address recorded at association creation" if ok_addr else "reply address does not derive from the association's client_addr")
                 ctx.ob("U3", b.defp, "reply-session-from-association", loc(t["sp"]), ok_sess, "reply Session = (association's client id, server id, packet id, user)" if ok_sess else "reply Session is not built from the association's own ids/user")
         # user assigned only behind the filter's accept edge
-        filt = [(blk, c, t) for (blk, c, t) in b.calls() if c.method == "validate_packet_id"]
+        filt = [(blk, c, t) for (blk, c, t) in b.calls() if is_filter(c)]
         for (blk, c, t) in b.calls():
             if c.name == "Clone::clone_from":
                 p = op_place(t["args"][0])
@@ -142,7 +149,9 @@ def run(ctx):
                        "(authentic) datagram sent from another address redirects every later reply of the session to that address")
         if n_w == 0:
             ctx.ob("U3", b.defp, "reply-address-changed-only-behind-filter", loc(b.sp), True, "the association task never changes its reply address (fixed at creation)", nontrivial=False)
-    lst = [b for b in bodies if b.defp.startswith("octo_squirrel_server") and any(c.name == "UdpSocket::recv_from" for (_, c, _) in b.calls()) and any(c.name == "LruCache::get_mut" for (_, c, _) in b.calls())]
+    lst = [prog.flat(b.defp, stop=lambda cb: not cb.defp.startswith("octo_squirrel_server::"), key="same-crate") for b in bodies
+           if b.defp.startswith("octo_squirrel_server") and any(c.name == "UdpSocket::recv_from" for (_, c, _) in b.calls())]
+    lst = [b for b in lst if any(c.name == "LruCache::get_mut" for (_, c, _) in b.calls())]
     ctx.floor("U3", "server UDP listener loop", 1, len(lst))
     for b in lst:
         for (blk, c, t) in b.calls():
